@@ -424,6 +424,11 @@ def impl_bag(case):
         slack = Fraction(1, 10 ** 9) * (1 + Fraction(1, 10 ** 6)) + Fraction(float(np.spacing(a)))
         if err > slack and worst is None:
             worst = "stamp %s (%r) re-read as %s (%r)" % (hexf(a), float(a), hexf(b), float(b))
+    # the header stamp itself (sec, nanosec) must be within one nanosecond of the float64 stamp (exact arithmetic)
+    for a, (sec, nsec) in zip(st, raw_stamps):
+        err = abs(Fraction(float(a)) - (Fraction(sec) + Fraction(nsec, 10 ** 9)))
+        if err > Fraction(1, 10 ** 9) * (1 + Fraction(1, 10 ** 6)) and worst is None:
+            worst = "stamp %s (%r) exported as sec=%d nanosec=%d (off by %.3g ns)" % (hexf(a), float(a), sec, nsec, float(err) * 1e9)
     return {"n_read": int(back.num_poses), "frame_id": back.meta.get("frame_id"),
             "diff": _first_diff(["positions_xyz", "orientations_quat_wxyz"], [xyz, q], [back.positions_xyz, back.orientations_quat_wxyz]),
             "stamp_diff": worst, "sec_nsec": raw_stamps, "reread": [hexf(v) for v in back.timestamps]}
@@ -695,6 +700,10 @@ def corpus():
     cs.append(data_case("df", "none", st, xyz, q, source="traj", as_type="path"))
     cs.append(data_case("df", "none", st, xyz, q, source="path", as_type="none"))
     cs.append(data_case("df", "none", st, xyz, q, source="path", as_type="traj"))
+    # float timestamps that LOOK like a default RangeIndex (0.0, 1.0, ..): still a trajectory with timestamps
+    cs.append(data_case("df", "none", [0.0, 1.0, 2.0, 3.0], xyz, q, source="traj", as_type="none"))
+    cs.append(data_case("df", "none", [0.0], xyz[:1], q[:1], source="traj", as_type="none"))
+    cs.append(data_case("df", "none", [5.0, 6.0, 7.0, 8.0], xyz, q, source="traj", as_type="none"))
     cs.append(data_case("bag", "str", sorted(st + [0.999999999, 1.0, 2147483647.999999, 0.0, 1e-9, 123.000000001]), xyz + xyz[:2] + xyz,
                         q + q[:2] + q, frame_id="map_é"))
     for v in VARIANTS:
